@@ -33,7 +33,70 @@ class CannotInline(Exception):
 
 
 def known_functions() -> set[str]:
-    return {l.strip() for l in KNOWN_FILE.read_text().splitlines() if l.strip() and not l.startswith("#")}
+    return {l.strip().split("(")[0] for l in KNOWN_FILE.read_text().splitlines() if l.strip() and not l.startswith("#")}
+
+
+def known_signatures() -> dict[str, tuple[str, ...]]:
+    """module:qualname -> parameter names of the reference tree"""
+    out = {}
+    for l in KNOWN_FILE.read_text().splitlines():
+        l = l.strip()
+        if l and not l.startswith("#") and "(" in l:
+            k, ps = l.split("(", 1)
+            out[k] = tuple(x for x in ps.rstrip(")").split(",") if x)
+    return out
+
+
+def undo_renames(repo) -> dict[str, str]:
+    """A function of the reference tree that vanished while a new function with the same parameters appeared in its
+    place (same module and class) was *renamed*: the new name is rewritten to the old one everywhere (definition,
+    calls, attribute accesses, imports), so that rules -- which know the functions of the reference tree by name --
+    see the same program. Returns {new key: old key}."""
+    sigs = known_signatures()
+    current = repo.functions
+    vanished = [k for k in sigs if k not in current]
+    fresh = [k for k in current if k not in sigs]
+    if not vanished or not fresh:
+        return {}
+    pairs: dict[str, str] = {}
+    for k in vanished:
+        mod, q = k.split(":")
+        prefix = q.rsplit(".", 1)[0] + "." if "." in q else ""
+        cands = []
+        for n in fresh:
+            m2, q2 = n.split(":")
+            p2 = q2.rsplit(".", 1)[0] + "." if "." in q2 else ""
+            if p2 == prefix and tuple(current[n].params()) == sigs[k] and q2.split(".")[-1] != q.split(".")[-1]:
+                cands.append(n)
+        same_mod = [n for n in cands if n.split(":")[0] == mod]
+        pick = same_mod if len(same_mod) == 1 else cands if len(cands) == 1 and not same_mod else []
+        if len(pick) == 1 and pick[0] not in pairs:
+            pairs[pick[0]] = k
+    if not pairs:
+        return {}
+    ren = {n.split(":")[1].split(".")[-1]: k.split(":")[1].split(".")[-1] for n, k in pairs.items()}
+    # the old names must be free
+    taken = {x.id for m in repo.modules.values() for x in ast.walk(m.tree) if isinstance(x, ast.Name)} | \
+            {x.attr for m in repo.modules.values() for x in ast.walk(m.tree) if isinstance(x, ast.Attribute)}
+    ren = {a: b for a, b in ren.items() if b not in taken}
+    if not ren:
+        return {}
+    for m in repo.modules.values():
+        for x in ast.walk(m.tree):
+            if isinstance(x, ast.FunctionDef) and x.name in ren:
+                x.name = ren[x.name]
+            elif isinstance(x, ast.Name) and x.id in ren:
+                x.id = ren[x.id]
+            elif isinstance(x, ast.Attribute) and x.attr in ren:
+                x.attr = ren[x.attr]
+            elif isinstance(x, ast.ImportFrom):
+                for a in x.names:
+                    if a.name in ren:
+                        a.name = ren[a.name]
+                    if a.asname in ren:
+                        a.asname = ren[a.asname]
+    repo.reindex()
+    return {n: k for n, k in pairs.items() if n.split(":")[1].split(".")[-1] in ren}
 
 
 # --------------------------------------------------------------------------- helpers
@@ -946,7 +1009,8 @@ def _unfold_comprehension_loops(fn: ast.FunctionDef) -> bool:
 def apply(repo) -> dict:
     """Mutates the module trees of `repo`; returns a report {inlined: [...], opaque: [...], removed: [...]}."""
     known = known_functions()
-    report = {"inlined": [], "opaque": [], "removed": [], "new": []}
+    report = {"inlined": [], "opaque": [], "removed": [], "new": [], "renamed": {}}
+    report["renamed"] = undo_renames(repo)
     normalise_calls(repo)
     for rnd in range(6):
         new = {k: f for k, f in repo.functions.items() if k not in known}
@@ -1241,8 +1305,8 @@ if __name__ == "__main__":
     from .repo import Repo
     if "--freeze" in sys.argv:
         r = Repo(sys.argv[sys.argv.index("--freeze") + 1] if len(sys.argv) > 2 else "/repo", normalise=False)
-        KNOWN_FILE.write_text("# functions of the reference tree (module:qualname); anything else is a new helper\n"
-                              + "\n".join(sorted(r.functions)) + "\n")
+        KNOWN_FILE.write_text("# functions of the reference tree (module:qualname(parameters)); anything else is a new helper\n"
+                              + "\n".join(f"{k}({','.join(r.functions[k].params())})" for k in sorted(r.functions)) + "\n")
         print(len(r.functions), "functions frozen")
     else:
         r = Repo(sys.argv[1] if len(sys.argv) > 1 else "/repo")
